@@ -2,6 +2,8 @@ package c06
 
 import (
 	"bytes"
+	"crypto/sha256"
+	"encoding/hex"
 	"fmt"
 	"sort"
 	"testing"
@@ -355,6 +357,10 @@ func runCase(c Case, o *kit.Obs) *kit.Failure {
 			return parquet.Find(index, v, parquet.CompareNullsFirst(typ.Compare))
 		}})
 	}
+	// claimed order and every search result: compared between the assembly and the portable build
+	dg := sha256.New()
+	fmt.Fprintf(dg, "%v,%v|", index.IsAscending(), index.IsDescending())
+	defer func() { o.Digest(hex.EncodeToString(dg.Sum(nil)[:8])) }()
 	for _, probe := range c.Probes {
 		first := -1
 		for i, p := range c.Pages {
@@ -369,6 +375,7 @@ func runCase(c Case, o *kit.Obs) *kit.Failure {
 		pv := pq.Scalar(l, probe.I, probe.B)
 		for _, fd := range finders {
 			r := fd.f(pv)
+			fmt.Fprintf(dg, "%d,", r)
 			feat := fmt.Sprintf("{fn=%s,order=%s,nullpages=%s}", fd.name, orderName(index), nullName(anyNull, nullNotLast))
 			if r < 0 || r > np {
 				return kit.Failf("c06/out-of-range"+feat, "%s returned %d for %d pages", fd.name, r, np)
